@@ -71,10 +71,49 @@ func (c *C) replySites(fn *ssa.Function) (sites []replySite, unknown []string) {
 		v  ssa.Value
 		at ssa.Instruction
 	}
+	// what the parameters of the helper being looked into stand for at the call that led there
+	type envT struct {
+		bind map[*ssa.Parameter]ssa.Value
+		up   *envT
+	}
 	seen := map[key]bool{}
-	var walk func(v ssa.Value, at ssa.Instruction, via string, depth int)
-	var ofFunc func(f *ssa.Function, at ssa.Instruction, via string, depth int)
-	walk = func(v ssa.Value, at ssa.Instruction, via string, depth int) {
+	var walk func(v ssa.Value, at ssa.Instruction, via string, depth int, env *envT)
+	var ofFunc func(f *ssa.Function, at ssa.Instruction, via string, depth int, env *envT)
+	enter := func(cf *ssa.Function, args []ssa.Value, env *envT) *envT {
+		ne := &envT{bind: map[*ssa.Parameter]ssa.Value{}, up: env}
+		for i, p := range cf.Params {
+			if i < len(args) {
+				ne.bind[p] = args[i]
+			}
+		}
+		return ne
+	}
+	// resolve a called value to a function: a static callee, or a function-typed parameter bound to a closure
+	resolve := func(call *ssa.Call, env *envT) (*ssa.Function, *envT) {
+		if cf := callee(call); cf != nil {
+			return cf, env
+		}
+		v := call.Call.Value
+		e := env
+		for i := 0; i < 4; i++ {
+			switch x := v.(type) {
+			case *ssa.Parameter:
+				if e == nil || e.bind[x] == nil {
+					return nil, nil
+				}
+				v, e = e.bind[x], e.up
+				continue
+			case *ssa.MakeClosure:
+				f, _ := x.Fn.(*ssa.Function)
+				return f, e
+			case *ssa.Function:
+				return x, e
+			}
+			break
+		}
+		return nil, nil
+	}
+	walk = func(v ssa.Value, at ssa.Instruction, via string, depth int, env *envT) {
 		k := key{v, at}
 		if seen[k] {
 			return
@@ -97,44 +136,51 @@ func (c *C) replySites(fn *ssa.Function) (sites []replySite, unknown []string) {
 			}
 			sites = append(sites, replySite{Kind: kind, At: a, In: x, Pos: pos, Via: via})
 		case *ssa.ChangeInterface:
-			walk(x.X, at, via, depth)
+			walk(x.X, at, via, depth, env)
 		case *ssa.Phi:
 			for _, e := range x.Edges {
-				walk(e, at, via, depth)
+				walk(e, at, via, depth, env)
 			}
 		case *ssa.Const:
 			// the nil interface: R7's business
+		case *ssa.Parameter:
+			if env != nil && env.bind[x] != nil {
+				walk(env.bind[x], at, via, depth, env.up)
+				return
+			}
+			unknown = append(unknown, c.pos(x.Pos())+": reply handed in as a parameter that no call binds")
 		case *ssa.UnOp:
 			if al, ok := x.X.(*ssa.Alloc); ok && x.Op == token.MUL {
 				for _, r := range *al.Referrers() {
 					if st, ok := r.(*ssa.Store); ok && st.Addr == ssa.Value(al) {
-						walk(st.Val, at, via, depth)
+						walk(st.Val, at, via, depth, env)
 					}
 				}
 				return
 			}
 			unknown = append(unknown, c.pos(x.Pos())+": reply loaded from memory")
 		case *ssa.Call:
-			cf := callee(x)
-			if cf != nil && firstParty(cf) && len(cf.Blocks) > 0 && depth < 4 {
+			cf, cenv := resolve(x, env)
+			if cf != nil && firstParty(cf) && len(cf.Blocks) > 0 && depth < 5 {
 				a := at
 				if a == nil {
 					a = x
 				}
-				ofFunc(cf, a, via+cf.Name()+">", depth+1)
+				ofFunc(cf, a, via+cf.Name()+">", depth+1, enter(cf, x.Call.Args, cenv))
 				return
 			}
 			unknown = append(unknown, c.pos(x.Pos())+": reply produced by an unresolved call")
 		case *ssa.Extract:
 			if call, ok := x.Tuple.(*ssa.Call); ok {
-				if cf := callee(call); cf != nil && firstParty(cf) && len(cf.Blocks) > 0 && depth < 4 {
+				if cf, cenv := resolve(call, env); cf != nil && firstParty(cf) && len(cf.Blocks) > 0 && depth < 5 {
 					a := at
 					if a == nil {
 						a = call
 					}
+					ne := enter(cf, call.Call.Args, cenv)
 					for _, b := range cf.Blocks {
 						if ret, ok := b.Instrs[len(b.Instrs)-1].(*ssa.Return); ok && x.Index < len(ret.Results) {
-							walk(ret.Results[x.Index], a, via+cf.Name()+">", depth+1)
+							walk(ret.Results[x.Index], a, via+cf.Name()+">", depth+1, ne)
 						}
 					}
 					return
@@ -145,7 +191,7 @@ func (c *C) replySites(fn *ssa.Function) (sites []replySite, unknown []string) {
 			unknown = append(unknown, c.pos(v.Pos())+": reply value of unrecognised form "+fmt.Sprintf("%T", v))
 		}
 	}
-	ofFunc = func(f *ssa.Function, at ssa.Instruction, via string, depth int) {
+	ofFunc = func(f *ssa.Function, at ssa.Instruction, via string, depth int, env *envT) {
 		for _, b := range f.Blocks {
 			if len(b.Instrs) == 0 {
 				continue
@@ -156,12 +202,12 @@ func (c *C) replySites(fn *ssa.Function) (sites []replySite, unknown []string) {
 			}
 			for _, r := range ret.Results {
 				if isReplyIface(r.Type()) {
-					walk(r, at, via, depth)
+					walk(r, at, via, depth, env)
 				}
 			}
 		}
 	}
-	ofFunc(fn, nil, "", 0)
+	ofFunc(fn, nil, "", 0, nil)
 	return
 }
 
@@ -706,6 +752,14 @@ var rR22e = RuleRef{Name: "R22e", Doc: "EXPIRE's options act only under their st
 			}
 		}
 		of := c.orderFlow(fn, nil, true, "T|cmp:*", "F|cmp:*", "T|ok:*", "F|ok:*")
+		byName := map[string]ssa.Value{}
+		for _, b := range fn.Blocks {
+			for _, in := range b.Instrs {
+				if v, ok := in.(ssa.Value); ok && v.Name() != "" {
+					byName[v.Name()] = v
+				}
+			}
+		}
 		var bad []string
 		ltOnPersistent := false
 		for _, call := range sites {
@@ -716,11 +770,13 @@ var rR22e = RuleRef{Name: "R22e", Doc: "EXPIRE's options act only under their st
 			for _, st := range states {
 				opt := ""
 				okT, okF, cmpDeadline := false, false, false
+				words := map[string]bool{}
 				for f := range st {
 					lf := strings.ToLower(f)
 					for _, w := range []string{"nx", "xx", "gt", "lt"} {
 						if strings.HasPrefix(f, "T|cmp:") && strings.Contains(lf, "\""+w+"\"==") {
 							opt = w
+							words[w] = true
 						}
 					}
 					if strings.HasPrefix(f, "T|ok:") {
@@ -733,8 +789,70 @@ var rR22e = RuleRef{Name: "R22e", Doc: "EXPIRE's options act only under their st
 						cmpDeadline = true
 					}
 				}
-				if opt == "" {
-					continue
+				// a lookup outcome compared with another boolean (ok == (opt == "xx")): when the other side's truth is
+				// fixed by the path, the edge fixes the outcome
+				for f := range st {
+					if !(strings.HasPrefix(f, "T|cmp:%") || strings.HasPrefix(f, "F|cmp:%")) || !strings.Contains(f, "==%") {
+						continue
+					}
+					parts := strings.SplitN(f[6:], "==", 2)
+					if len(parts) != 2 || !strings.HasPrefix(parts[1], "%") {
+						continue
+					}
+					va, vb := byName[parts[0][1:]], byName[parts[1][1:]]
+					if va == nil || vb == nil {
+						continue
+					}
+					isOk := func(v ssa.Value) bool {
+						ex, ok := v.(*ssa.Extract)
+						if !ok || ex.Index == 0 || !isBoolType(ex.Type()) {
+							return false
+						}
+						_, isCall := ex.Tuple.(*ssa.Call)
+						return isCall
+					}
+					okV, other := va, vb
+					if !isOk(okV) {
+						okV, other = vb, va
+					}
+					if !isOk(okV) {
+						continue
+					}
+					on, flip := condName(other)
+					if on == "" {
+						continue
+					}
+					known, truth := false, false
+					if st["T|"+on] {
+						known, truth = true, !flip
+					} else if st["F|"+on] {
+						known, truth = true, flip
+					} else if strings.HasPrefix(on, "cmp:\"") {
+						// opt == "xx" is false on a path that fixed opt == "nx" (same operand, another constant)
+						if i := strings.Index(on, "\"=="); i > 0 {
+							operand := on[i+3:]
+							for g := range st {
+								if strings.HasPrefix(g, "T|cmp:\"") && strings.HasSuffix(g, "\"=="+operand) && g[2:] != on {
+									known, truth = true, flip
+								}
+							}
+						}
+					}
+					if !known {
+						continue
+					}
+					okTruth := truth
+					if strings.HasPrefix(f, "F|") {
+						okTruth = !truth
+					}
+					if okTruth {
+						okT = true
+					} else {
+						okF = true
+					}
+				}
+				if opt == "" || len(words) > 1 {
+					continue // no option arm, or an impossible path (the option word equal to two different constants)
 				}
 				n++
 				good := false
